@@ -2,7 +2,7 @@
 From V.lib Require Import Base.
 From V.c13 Require Import C13Spec C13Model.
 From V.c15 Require Import C15Model C15Spec C15BitProofs C15AvcSpsProofs C15AvcVuiProofs C15AvcPpsProofs C15AvcSliceProofs
-  C15AvcDimsProofs C15Examples.
+  C15AvcDimsProofs C15AvcConfModel C15AvcConfSpec C15AvcConfProofs C15Examples.
 
 (* AVC SPS: for every field assignment accepted by sps_valid (profiles with and without the
    chroma / bit-depth / scaling-list block, scaling lists, poc types 0-2, frame/field, cropping for
@@ -131,3 +131,45 @@ Example C15_avc_dims_hyps :
   /\ option_map (fun s => (sps_width s, sps_height s))
        (match parse_sps_br false (nalu_sps ex_sps) with Ok s => Some s | _ => None end) = Some (1914, 1080).
 Proof. vm_compute. repeat split. Qed.
+
+(* AVC decoder configuration record (avc/avcdecoderconfigurationrecord.go, repaired text 4c725fa).
+   C15_avc_confrec: for every valid SPS sp, CreateAVCDecConfRec applied to [nalu_sps sp; any further SPS NAL
+   units] and any PPS NAL units returns the record that carries profile_idc, the constraint-flag byte,
+   level_idc, chroma_format_idc and the bit depths (minus 8) of sp (4:2:0 / 8 bit inferred when the profile
+   has no chroma block) and, when includePS is set, the parameter-set NAL units verbatim. *)
+Theorem C15_avc_confrec : forall sp rest ppss inc,
+  sps_valid sp = true ->
+  create_confrec_br (nalu_sps sp :: rest) ppss inc
+  = Ok (mkConf (profile_idc sp) (compat_byte sp) (level_idc sp)
+               (if inc then nalu_sps sp :: rest else []) (if inc then ppss else [])
+               (eff_chroma_format_idc sp)
+               (if has_chroma_block (profile_idc sp) then bit_depth_luma_minus8 sp else 0)
+               (if has_chroma_block (profile_idc sp) then bit_depth_chroma_minus8 sp else 0) 0 false).
+Proof. exact avc_confrec_create. Qed.
+Print Assumptions C15_avc_confrec.
+
+(* C15_avc_confrec_decode: DecodeAVCDecConfRec applied to the record laid out bit by bit as in ISO/IEC
+   14496-15 5.3.3.1.2 (any number of SPS <= 31 / PPS <= 255 NAL units of up to 65535 bytes, trailer for
+   every profile except 66/77/88) returns the coded values and the NAL units verbatim. *)
+Theorem C15_avc_confrec_decode : forall x,
+  confrec_syntax_valid x = true -> decode_confrec (ser_confrec x) = Ok (expected_confrec x).
+Proof. exact avc_confrec_decode. Qed.
+Print Assumptions C15_avc_confrec_decode.
+Example C15_avc_confrec_hyps :
+  confrec_syntax_valid (confrec_of_sps ex_sps [nalu_sps ex_sps] [nalu_pps ex_pps] true) = true
+  /\ firstn 6 (ser_confrec (confrec_of_sps ex_sps [nalu_sps ex_sps] [nalu_pps ex_pps] true)) = [1; 122; 80; 41; 255; 225]
+  /\ cr_chroma (expected_confrec (confrec_of_sps ex_sps [nalu_sps ex_sps] [nalu_pps ex_pps] true)) = 2
+  /\ cr_bdl (expected_confrec (confrec_of_sps ex_sps [nalu_sps ex_sps] [nalu_pps ex_pps] true)) = 2.
+Proof. vm_compute. repeat split. Qed.
+
+(* avc.CodecString: "<sample entry>.PPCCLL" with PP = profile_idc, CC = the constraint-flag byte, LL = level_idc
+   of the SPS, two upper-case hexadecimal digits each (RFC 6381 3.3), for every valid SPS and every sample
+   entry name. *)
+Theorem C15_avc_codec_string : forall entry sp beyond s,
+  sps_valid sp = true -> parse_sps_br beyond (nalu_sps sp) = Ok s ->
+  codec_string entry s = codec_string_spec entry sp.
+Proof. exact avc_codec_string. Qed.
+Print Assumptions C15_avc_codec_string.
+Example C15_avc_codec_string_hyps :
+  codec_string_spec [97; 118; 99; 49] ex_sps = [97; 118; 99; 49; 46; 55; 65; 53; 48; 50; 57].   (* "avc1.7A5029" *)
+Proof. vm_compute. reflexivity. Qed.
